@@ -84,6 +84,9 @@ class YowNetworkLayer(YowLayer, ConnectionCallbacks):
         return True
 
     def createConnection(self):
+        if self.state != self.__class__.STATE_DISCONNECTED:
+            logger.warn("Ignoring connect request, a connection is already up or being established")
+            return
         self._disconnect_reason = None
         self._dispatcher = self.__create_dispatcher(self.getProp(self.PROP_DISPATCHER, self.DISPATCHER_DEFAULT))
         self.state = self.__class__.STATE_CONNECTING
